@@ -324,6 +324,27 @@ def check(ctx):
         if len(ks) != 2:
             return None
         a, b = _unbool(ks[0]), _unbool(ks[1])
+
+        def thru(x_):
+            # a single-definition local standing for the table word
+            if (x_.get('ref') or {}).get('k') == 'Local':
+                d_ = single_def(f, x_['ref']['id'])
+                if d_ is not None:
+                    return _unbool(d_)
+            return x_
+        # second spelling: (BITBASE[a] >> b) & 1
+        for u_, one_ in ((a, b), (b, a)):
+            if n.get('op') == '&' and const_of(one_) == 1 and u_['k'] == 'BinaryOperator' and u_.get('op') == '>>':
+                w0, s0 = thru(_unbool(kids(u_)[0])), _unbool(kids(u_)[1])
+                if w0['k'] == 'ArraySubscriptExpr' and cn(f, kids(w0)[0]) == 'BITBASE':
+                    w_ = _unbool(kids(w0)[1])
+                    wn_ = sn_ = None
+                    if w_['k'] == 'BinaryOperator' and (w_.get('op'), const_of(_unbool(kids(w_)[1]))) in (('/', 32), ('>>', 5)):
+                        wn_ = cn(f, kids(w_)[0])
+                    if s0['k'] == 'BinaryOperator' and (s0.get('op'), const_of(_unbool(kids(s0)[1]))) in (('&', 31), ('%', 32)):
+                        sn_ = cn(f, kids(s0)[0])
+                    return ('&', wn_, sn_)
+        a = thru(a)
         if a['k'] != 'ArraySubscriptExpr' or cn(f, kids(a)[0]) != 'BITBASE':
             return None
         if b['k'] != 'BinaryOperator' or b.get('op') != '<<' or const_of(_unbool(kids(b)[0])) != 1:
